@@ -179,8 +179,15 @@ Line(r, n) ==
            ELSE LET s2 == ApplyRm(DownsampleOp(s, r.np), r) IN
                 Plain(SetterOK(r, s, s2, {0, 1}, TRUE) /\ r.hasSp /\ r.zoom \in 1..cfg.nZoom, s2, [i EXCEPT !.spk = << 2, r.zoom >>, !.zoom = r.zoom])
       [] r.e = "SetTmpl" ->
-           LET s2 == ApplyRm(SetTmplOp(s, cfg.dets[r.id], cfg.geo[r.id]), r) IN
-           Plain(r.id \in 1..Len(cfg.dets) /\ SetterOK(r, s, s2, {0, 1}, FALSE) /\ r.ndp = 0, s2, [i EXCEPT !.tm = r.id, !.effE = 0])
+           \* A scatter-point image derived with automatic (template-dependent) settings belongs to the
+           \* old template.  Dropping it here (it is derived again by set_up) is the specified behaviour;
+           \* keeping it is tolerated on this line only because its consequence - outputs that differ
+           \* from a fresh object's - is caught at the next Compute (finding C16-zoomlatch).
+           LET drop == i.zoom = 0 /\ i.spk[1] = 2 /\ ~r.hasSp
+               t2 == SetTmplOp(s, cfg.dets[r.id], cfg.geo[r.id])
+               s2 == ApplyRm(IF drop THEN DropDerivedOp(t2) ELSE t2, r) IN
+           Plain(r.id \in 1..Len(cfg.dets) /\ SetterOK(r, s, s2, {0, 1}, FALSE) /\ r.ndp = 0 /\ (r.hasSp = (s2.spImg # 0)),
+                 s2, [i EXCEPT !.tm = r.id, !.effE = 0, !.spk = IF drop THEN << 0, 0 >> ELSE @])
       [] r.e = "SetEnergy" ->
            LET s2 == ApplyRm(SetEnergyOp(s), r) IN
            Plain(SetterOK(r, s, s2, {}, FALSE) /\ r.id \in 1..Len(cfg.win), s2, [i EXCEPT !.en = r.id])
